@@ -303,40 +303,50 @@ def exec_raw(cache, seed, hops, payload, feats_extra=None):
         + (":lt6" if short else "")
 
 
-def build_items(spec_items, seed):
-    """advertised values -> (AD structures built by the reference, chunks built with the library's classes)"""
-    ref_chunks, lib_chunks = [], []
+def ref_items(spec_items, seed):
+    """advertised values -> AD structures as the specifications encode them (reference only)"""
+    out = []
     for it in spec_items:
         kind = it[0]
         if kind == "battery":
-            ref_chunks.append(ble.svc_battery(it[1]))
-            o = H.m_ble.BatteryServiceData()
-            o.data = it[1]
-            lib_chunks.append(H.m_ble.chunk(o.buffer))
+            out.append(ble.svc_battery(it[1]))
         elif kind == "temperature":
-            k = it[1]
-            ref_chunks.append(ble.svc_temperature(k))
-            o = H.m_ble.TemperatureServiceData()
-            o.data = k / 100.0
-            lib_chunks.append(H.m_ble.chunk(o.buffer))
+            out.append(ble.svc_temperature(it[1]))
         elif kind == "url":
             _, scheme, parts, txp = it
-            ref_chunks.append(ble.svc_url(ble.url_encode(scheme, parts), txp))
-            o = H.m_ble.UrlServiceData()
-            o.pa_level_at_1_meter = txp
-            o.data = ble.url_text(scheme, parts)
-            lib_chunks.append(H.m_ble.chunk(o.buffer))
+            out.append(ble.svc_url(ble.url_encode(scheme, parts), txp))
         elif kind == "raw":
             _, t, n, salt = it
             body = rnd_bytes(n, seed, salt)
             if t == ble.AD_SERVICE_DATA16 and n >= 2:
                 body = body[:1] + b"\x12" + body[2:]  # a service UUID the library has no class for
-            c = ble.ad(t, body)
-            ref_chunks.append(c)
-            lib_chunks.append(bytearray(c))
+            out.append(ble.ad(t, body))
         else:
             raise HarnessError("unknown item %r" % (it,))
-    return ref_chunks, lib_chunks
+    return out
+
+
+def lib_items(spec_items, ref_chunks):
+    """the same values packed with the library's service data classes and chunk() (code under
+    test: only called inside the guarded transmit step)"""
+    out = []
+    for it, ref in zip(spec_items, ref_chunks):
+        kind = it[0]
+        if kind == "battery":
+            o = H.m_ble.BatteryServiceData()
+            o.data = it[1]
+        elif kind == "temperature":
+            o = H.m_ble.TemperatureServiceData()
+            o.data = it[1] / 100.0
+        elif kind == "url":
+            o = H.m_ble.UrlServiceData()
+            o.pa_level_at_1_meter = it[3]
+            o.data = ble.url_text(it[1], it[2])
+        else:
+            out.append(bytearray(ref))
+            continue
+        out.append(H.m_ble.chunk(o.buffer))
+    return out
 
 
 def exec_adv(cache, seed, case):
@@ -347,7 +357,7 @@ def exec_adv(cache, seed, case):
     nkind, nlen = case["name"]
     name_arg, name_raw = K.name_value(nkind, nlen, seed)
     pa = case["pa"]
-    ref_chunks, lib_chunks = build_items(case["items"], seed)
+    ref_chunks = ref_items(case["items"], seed)
     feats = {"tx": tx, "ch": b.ch, "name": "none" if name_raw is None else "set", "pa": "none" if pa is None else "set"}
     item0 = case["items"][0][0] if case["items"] else "none"
     opt = b""
@@ -363,12 +373,12 @@ def exec_adv(cache, seed, case):
             c = ref_chunks[0]
             call = ("raw", c[2:], c[1])
         try:
-            payload = b.lib_advertise(mac, name_arg, pa, lib_chunks, call)
+            payload = b.lib_advertise(mac, name_arg, pa, lib_items(case["items"], ref_chunks), call)
         except (HarnessError, Abort):
             raise
         except Exception as e:  # noqa
             b.dirty = True
-            fails.append(("exception:%s:advertise" % excname(e), "advertising %r raised %r" % (case, e), feats))
+            fails.append(("exception:%s:advertise-%s" % (excname(e), item0), "advertising %r raised %r" % (case, e), feats))
             return fails, "tx-raises"
     else:
         payload = pad32(ble.encode(case.get("header", ble.ADV_NONCONN_IND_RANDOM), mac, adv, b.ch), seed, len(adv))
@@ -448,7 +458,7 @@ def adv_case(hops, tx, items, name=("none", 0), pa=None, **kw):
 
 
 def fits(items, name, pa, seed=0):
-    n = sum(len(c) for c in build_items(items, seed)[0])
+    n = sum(len(c) for c in ref_items(items, seed))
     return n + (0 if name[0] == "none" else name[1] + 2) + (0 if pa is None else 3) <= K.CAPACITY
 
 
